@@ -4,7 +4,7 @@
    re-checked here in exact arithmetic: norms by n^2 ~ sum of squares, the assignment against the brute force
    over all r! matchings (by VALUE: ties are allowed), the SVD by U^T U ~ I and U S V^T ~ M. *)
 From Coq Require Import List Arith ZArith QArith Qabs Bool.
-From TLV Require Import Base.Shape Base.PyList Base.Tensor Base.Ops Model.Metrics Model.MetricsSrc Model.MetricsPermute Corr.Common.
+From TLV Require Import Base.Shape Base.PyList Base.Tensor Base.Ops Model.Metrics Model.MetricsSrc Model.MetricsPermute Model.MetricsAxis Corr.Common.
 From TLV Require Model.Transforms.
 Import ListNotations.
 
@@ -323,15 +323,21 @@ Fixpoint src_agree (scs : option cong_src) (sci : option ci_src) (slv : option l
       | _, _ => true
       end
   | KPermuteFull ref arg impl =>
-      match spp, impl with
-      | Some pp, Ok outs =>
-          let '(nrm, ts) := parg_list arg in
-          let tape := assign_tape (combine (map snd (map (cmat_full ref nrm) ts)) (map snd outs)) in
-          match cp_permute_factors_full_src Qops pp ref arg tape, cp_permute_factors_full Qops ref arg tape with
-          | Ok a, Ok b => forallb2 out_eqb a b | Err, Err => true | _, _ => false
-          end
-      | Some pp, Err => is_err (cp_permute_factors_full_src Qops pp ref arg (fun _ => []))
-      | None, _ => true
+      (* tensor by tensor, with the implementation's permutation as the oracle's answer on BOTH sides: a record that drops a
+         cp_normalize call differs from the model exactly where the normalisation matters (a zero absorbed weight) *)
+      match spp with
+      | None => true
+      | Some pp =>
+        let '(nrm, ts) := parg_list arg in
+        let nrm_src := nrm && pp_norm_list pp in
+        match impl with
+        | Ok outs =>
+            forallb2 (fun t out =>
+              match cpf_one_src Qops pp ref nrm_src t (fun _ => snd out), cpf_one Qops ref nrm t (fun _ => snd out) with
+              | Ok a, Ok b => out_eqb a b | Err, Err => true | _, _ => false
+              end) ts outs
+        | Err => existsb (fun t => is_err (cpf_one_src Qops pp ref nrm_src t (fun _ => []))) ts
+        end
       end
   | KCorrIdx meth ctol f1 f2 n1 n2 _ =>
       match sci with
@@ -358,15 +364,21 @@ Fixpoint agree_body (b : body) : bool :=
   | KPermuteFull ref arg impl => agree_permute_full ref arg impl
   | KCorrIdx meth ctol f1 f2 n1 n2 impl => agree_corridx meth ctol f1 f2 n1 n2 impl
   | KLev renorm ltol M U Vt sv eps impl => agree_lev renorm ltol M U Vt sv eps impl
+  (* the axis argument AS PASSED (None, a possibly negative integer, a tuple) goes through Model/MetricsAxis.v: resolve_axis
+     decides for every metric which reduction the request stands for, or that it is rejected (then both sides must reject) *)
   | KReg which axz yt yp exact impl src =>
-      (* the axis argument as passed (possibly negative) is normalised NumPy-style; out of range: both sides reject *)
-      match norm_axis_opt axz (ndim yt) with
-      | Err => match impl with Err => true | Ok _ => false end
-      | Ok ax =>
+      match resolve_axis (metric_of which) (match axz with None => AxNone | Some z => AxInt z end) (ndim yt) with
+      | Err => is_err impl
+      | Ok red =>
+        let ax := match red with RedOne a => Some a | _ => None end in
         agree_reg which ax yt yp exact impl &&
         match src with Some f => negb (axis_ok ax yt) || src_agree_reg which ax yt yp f | None => true end
       end
-  | KRegT which zs yt yp exact impl => agree_regT which zs yt yp exact impl
+  | KRegT which zs yt yp exact impl =>
+      match resolve_axis (metric_of which) (AxTuple zs) (ndim yt) with
+      | Err => is_err impl
+      | Ok _ => agree_regT which zs yt yp exact impl
+      end
   | KSrc scs sci slv spp b' => agree_body b' && src_agree scs sci slv spp b'
   end.
 Definition agree (c : case) : bool := agree_body (snd c).
